@@ -102,6 +102,17 @@ CHECKS = {
         "Known finding C12-b (PUB blocks on a stalled subscriber).",
    technique="TLA+ spec (PubSub.tla, Delivery.tla) + TLC exhaustive history export replayed on the real trie; TLC trace validation of socket histories",
    design_ref="DESIGN.md 4.6, 5 (C12)"),
+ "C13": dict(
+   text="TLC checks Balancer.tla exhaustively (3 peers, 7-9 operations: add/remove with cursor repair, per-peer fullness toggled "
+        "by the environment, sync and async sweeps, wait_for_connection as register/check/await against Notify): RouteOk, "
+        "CursorInRange, WaiterWakes, WaitingIsRegistered. Simulated histories are replayed on the real orchestrator with "
+        "scripted connections (chosen peer per send compared; exactly-one / never-full / never-removed / not-refused-with-room / "
+        "rotation-fairness judged on the real outcome); wait_for_connection runs under the controlled scheduler with the peer "
+        "added at every point; real PUSH with 3 PULLs (stalled, late, leaving, send-before-first-peer) is validated by TLC "
+        "against Delivery.tla.",
+   note="Scripted connections abstract pipe fullness at component level; socket-level fairness uses a 10% tolerance.",
+   technique="TLA+ spec (Balancer.tla, Delivery.tla) + TLC; histories replayed on the real load balancer; controlled-scheduler schedules; TLC trace validation of socket histories",
+   design_ref="DESIGN.md 4.5, 5 (C13)"),
 }
 
 NA_DEFAULT = "check not built yet (construction in progress; see DESIGN.md section 10)"
